@@ -175,7 +175,7 @@ int sturm_seqence_count_roots(
     if (interval->b_open && upolynomial_dense_sgn_at_rational(&sturm_sequence[0], &interval->b) == 0) {
       root_count --;
     }
-    if (!interval->a_open && upolynomial_dense_sgn_at_rational(&sturm_sequence[0], &interval->a) != 0) {
+    if (!interval->a_open && upolynomial_dense_sgn_at_rational(&sturm_sequence[0], &interval->a) == 0) {
       root_count ++;
     }
   }
@@ -204,7 +204,7 @@ int sturm_seqence_count_roots_dyadic(
     if (interval->b_open && upolynomial_dense_sgn_at_dyadic_rational(&sturm_sequence[0], &interval->b) == 0) {
       root_count --;
     }
-    if (!interval->a_open && upolynomial_dense_sgn_at_dyadic_rational(&sturm_sequence[0], &interval->a) != 0) {
+    if (!interval->a_open && upolynomial_dense_sgn_at_dyadic_rational(&sturm_sequence[0], &interval->a) == 0) {
       root_count ++;
     }
   }
